@@ -26,7 +26,7 @@ def worker(case):
     T = core.unb64(case["T"])
     Bt = core.unb64(case["Bt"])     # the complete, correct target file (for its header / index)
     srcs = [core.unb64(s) for s in case["srcs"]]
-    cid = core.h8([case["name"], case["skinds"], case["mode"], case["reset"], case.get("pokes")])
+    cid = core.h8([case.get("fd2"), case["name"], case["skinds"], case["mode"], case["reset"], case.get("pokes")])
     stats = {"evaluations": 1}
     try:
         pT = zckref.parse(Bt)
@@ -39,6 +39,12 @@ def worker(case):
                 pS.append(None)
         files = {"tgt.zck": T}
         L = ["fopen 1 tgt.zck rw target", "create 1", "init_read 1 1", "fv 1"]
+        env_extra = None
+        if case.get("fd2"):
+            # the process runs with stderr closed, so the target file IS descriptor 2, and the library logs at its default level
+            # (an application that turns logging ON while stderr is closed sends the messages there itself: not judged): nothing may end up in the file
+            L = ["closefd 2"] + L
+            env_extra = {"ZH_LOGLEVEL": str(case["fd2"])}
         if case["reset"]:
             L.append("reset_failed 1")
         L.append("flags 1")
@@ -68,14 +74,17 @@ def worker(case):
                 L += ["match %d 1" % (2 + i), "flags 1"]
         L += ["iocounts"]
         # the watch extents depend on the flags the library reports; run once to learn them (fv only), then the real run
-        probe = core.run_zh(case["zh"], os.path.join(cdir, "probe"), "\n".join(L[:5 if case["reset"] else 4]) + "\nflags 1\n", {"tgt.zck": T}, name="probe")
+        nfix = 1 if case.get("fd2") else 0
+        probe = core.run_zh(case["zh"], os.path.join(cdir, "probe"), "\n".join(L[nfix:nfix + (5 if case["reset"] else 4)]) + "\nflags 1\n", {"tgt.zck": T}, name="probe")
         fl0 = [e for e in probe.events if e.get("op") == "flags"]
         if not fl0:
             return core.verdict(cid, "inconclusive", detail="probe failed", case=case)
         before = fl0[-1]["valid"]
         allowed = ",".join("%d-%d" % (ext(c)[0], ext(c)[1] - 1) for c, f in zip(pT.chunks, before) if f != 1 and c["comp_len"]) or "0-0"
         script = "\n".join(L).replace("WATCH", allowed) + "\n"
-        rd = core.run_zh(case["zh"], cdir, script, files, name="cp")
+        rd = core.run_zh(case["zh"], cdir, script, files, name="cp", env_extra=env_extra)
+        if case.get("fd2"):
+            stats["runs_with_target_on_descriptor_2"] = 1
         if rd.timed_out and not rd.cpu_exceeded:
             return core.verdict(cid, "inconclusive", detail="watchdog", case=case)
         if rd.harness_error:
@@ -293,7 +302,8 @@ class C08(core.Check):
                 kinds.append(k)
             for mode in (["copy", "match"] if i % 3 == 0 else [r.choice(["copy", "copy", "match"])]):
                 out.append({"name": "t%d-c%d-u%d-h%d" % (i, comp, uncomp, cht), "T": core.b64(T), "Bt": core.b64(Bt), "srcs": [core.b64(s) for s in srcs], "skinds": kinds,
-                            "mode": mode, "reset": r.random() < 0.5, "zh": ctx["zh"], "setfd": len(srcs) > 1 and r.random() < 0.4})
+                            "mode": mode, "reset": r.random() < 0.5, "zh": ctx["zh"], "setfd": len(srcs) > 1 and r.random() < 0.4,
+                            "fd2": 3 if (mode == "copy" and r.random() < 0.25) else None})
             if i % 8 == 1 and nch >= 5:
                 # the target's chunks come from two sources in file order (first part, second part), the descriptor re-opened in between:
                 # the second copy continues exactly where the first one stopped writing
